@@ -337,7 +337,7 @@ func init() {
 				jobs = append(jobs, &ProcJob{Tier: tier})
 				return jobs
 			},
-			Rule:   "five workloads (routed create + claim + complete; registration then completion; overdue promise with registrations and the time-out sweep; schedule creation and firing of routed promises; lock and task leases) with a crash (two in thorough: the second during recovery) at EVERY action boundary - before a submission executes, after it committed but before its completion is delivered, between any two steps of any coroutine, in the middle of every sweep - followed by a restart, a read-back through the API and background cycles; plus the real `resonate serve` binary built from the tree: HTTP workload, SIGTERM and SIGKILL, restart on the same SQLite file with the default configuration, read back; distinct = distinct (responses, final database) vectors",
+			Rule:   "five workloads (routed create + claim + complete; registration then completion; overdue promise with registrations and the time-out sweep; schedule creation and firing of routed promises; lock and task leases) with a crash (two in thorough: the second during recovery) at EVERY action boundary - before a submission executes, after it committed but before its completion is delivered, between any two steps of any coroutine, in the middle of every sweep - and <=1 transaction whose COMMIT fails or in which a statement in the middle fails, followed by a restart, a read-back through the API and background cycles; plus the real `resonate serve` binary built from the tree: HTTP workload, SIGTERM and SIGKILL, restart on the same SQLite file with the default configuration, read back; the dispatch-discipline monitor of C08 watches the same executions; distinct = distinct (responses, final database) vectors",
 			Assume: append([]string{"a crash is process death between two SQL transactions: SQLite's journal/fsync machinery is trusted, the in-process crash model is bound to the real process by the procx job"}, engineAAssume...),
 			QuickS: 150, ThoroughS: 1800,
 		}
